@@ -43,6 +43,12 @@ Theorem C20_invariant : forall cs req s',
 Proof. exact handshake_invariant. Qed.
 Print Assumptions C20_invariant.
 
+(* a selected device was listed in some DEVICES object received earlier *)
+Theorem C20_selected_listed : forall cs req s' p,
+  parse_chunks (ginit req) cs = Ok s' -> g_sel s' = Some p -> history_lists cs p.
+Proof. exact handshake_selected_listed. Qed.
+Print Assumptions C20_selected_listed.
+
 (* commands are addressed to the selected device only *)
 Theorem C20_cmd_header : forall s d, g_sel s = Some d -> cmd_header s = Some (append "&" (append d "=")).
 Proof. exact cmd_header_ok. Qed.
